@@ -14,15 +14,15 @@ import (
 )
 
 type SolverStats struct {
-	Queries  int
-	Sat      int
-	Unsat    int
-	Unknown  int
-	Errors   int
-	WallNS   int64
-	MaxNS    int64
-	Resets   int
-	ByteDec  int // queries decided without the solver (constant folding / trivial)
+	Queries int
+	Sat     int
+	Unsat   int
+	Unknown int
+	Errors  int
+	WallNS  int64
+	MaxNS   int64
+	Resets  int
+	ByteDec int // queries decided without the solver (constant folding / trivial)
 }
 
 type Solver struct {
